@@ -195,3 +195,181 @@ PROPS["C04"] = dict(
                 "they are proved the universal claim rests on the correspondence plus three independent decoders."),
     level_note="Trusted: as C03; SA-IS (bzip2/internal/sais) is not modelled: the model sorts rotations, the BWT stage is compared with the code's output.",
 )
+
+PROPS["C02"] = dict(
+    rule=("inputs: every string of <=1 byte and a 1/37 sample of 2-byte strings (thorough: all 2-byte, 1/997 of 3-byte); "
+          "libbrotlienc output over quality 0-11 x lgwin 10-24 x mode x lgblock x NPOSTFIX/NDIRECT x flush and metadata "
+          "operations on structured plaintexts; streams crafted at the bit level by a generator that mirrors decoder state "
+          "(simple codes of every shape, HSKIP, repeat-code accumulation, many block types with type codes 0/1, context "
+          "maps with RLE and inverse MTF, all short distance codes, window-boundary distances, metadata/uncompressed/"
+          "empty meta-blocks) with and without injected violations; every transform x word lengths 4,5,9,16,24 (quick: a "
+          "third); mutations; every truncation of 6 short streams; the D9 regression inputs."),
+    explanation=("Each input runs through brotli.Reader, libbrotlidec (cgo) and the extracted RFC 7932 model (dictionary "
+                 "taken from libbrotlicommon, compared with brotli's copy on every run). Oracles: acceptance, output and "
+                 "consumed bytes equal to libbrotli; on failure delivered bytes prefix-comparable with libbrotli and a "
+                 "prefix of what the model delivers (the model is the reference for 'which bytes may precede a failure'); "
+                 "accepted inputs are also compared with the model exactly. The model was validated by its author agent "
+                 "against libbrotli on 455,000 inputs (105,000 valid) with no disagreement."),
+    assumptions=["libbrotli 1.0.9 is the reference decoder/encoder"],
+    level_text=("Proved for the RFC 7932 decoder model, for every dictionary and every input: it reads its source strictly "
+                "bit by bit (no end-of-source test), hence verdict/output/consumption are independent of trailing bytes and "
+                "every cut of an accepted stream yields exactly UnexpectedEOF with a prefix of the output; the RFC-derived "
+                "range/offset tables equal the implementation's (kernel-checked). That brotli.Reader computes this model is "
+                "checked by correspondence (0 disagreements required) and against libbrotli on every run; the LUT/window/"
+                "resumable-state refinement theorems of DESIGN.md are not proved."),
+    level_note="Trusted: Coq kernel, extraction, driver, harness, libbrotli as reference. Model = code sampled.",
+)
+PROPS["C08"] = dict(
+    rule=("hostile inputs: XFLATE indexes declaring 2^20..2^62 records, footers with back sizes up to 2^63-1 and negative, "
+          "a chain of 300 empty indexes, a record with raw size 2^50; brotli: WBITS=24 empty stream, MLEN/ILEN of 16 MiB from "
+          "12 bytes, MSKIPLEN 2^24 without data, large-window header fuzz, a 200 KB zero bomb, crafted streams with "
+          "injected violations; bzip2: 32767 selectors, synthesised streams with degenerate 20-bit trees, runs of 2^20, a "
+          "3 MB zero bomb; flate: 3 MB zero bomb, 60 rule-breaking synthesised streams; meta mutations; plus 250 (thorough: "
+          "6000) random strings / mutated valid streams per decoder. Each decoder family runs in a child process under "
+          "ulimit -v 3 GB and a wall-clock limit; xflate inputs are opened, sought (2^40, 0, 7) and read."),
+    explanation=("Oracles: the child survives (no panic escapes, no OOM kill, no hang), time <= 3 ms x (input + delivered bytes) "
+                 "+ 2 s, cumulative allocation <= 96 MiB + 64 x (input + delivered bytes). Rediscovers D3 on the pre-repair "
+                 "tree (child killed by the memory limit on a 43-byte input)."),
+    assumptions=["allocation totals (runtime.MemStats.TotalAlloc) are a proxy for memory demand"],
+    level_text=("Partial by nature. Proved about the models: the XFLATE index loop appends at most |payload|/2 records "
+                "whatever the declared count (the pre-repair loop is refuted: n records from an empty payload, for every n), "
+                "every VLI read consumes input, a Read never returns more than the buffer. Termination of the models is by "
+                "construction (structural recursion / bounded loops). Go runtime memory, stack and time are measured on "
+                "generated hostile inputs, not proved; 'no panic' for the real code is the oracle's observation."),
+    level_note="Trusted: as C09; the Go runtime (allocator, GC, scheduler) is outside every model.",
+)
+PROPS["C12"] = dict(
+    rule=("xflate.Writer histories (random configurations and call sequences; NoCompression level with user data containing "
+          "a complete nested XFLATE stream and meta-block look-alikes) and bzip2.Writer outputs: every cut position for "
+          "outputs <= 2 KiB (otherwise +-2 around flush points and 300 sampled cuts); every point at which a Flush returned."),
+    explanation=("Oracles: at each flush point compress/flate and zlib recover everything written before it; each cut fed to "
+                 "compress/flate, zlib (xflate output) and libbz2, compress/bzip2, bzip2.Reader (bzip2 output) delivers a "
+                 "prefix of the original and does not report success; xflate.NewReader on a cut either fails or a full read "
+                 "returns exactly the original. Complete outputs are decoded by the extracted RFC 1951 model; bzip2 cuts by "
+                 "the extracted decoder model."),
+    assumptions=_XF_TRUST,
+    level_text=("Proved: any cut of a stream the RFC 1951 model accepts gives exactly UnexpectedEOF and a prefix of the output "
+                "(all inputs); bytes delivered before a cut stay delivered when more input arrives (all eof-free decoder "
+                "programs, incl. the brotli and flate models); all 115 cuts of a real xflate.Writer output checked inside "
+                "the kernel. The xflate-open clause ('fails or serves the original') inherits the C15 weakness and is "
+                "decided by the oracle on generated histories only; bzip2 cuts: witness + oracle."),
+    level_note="Trusted: as C05.",
+    trusted_extra=_XF_TRUST,
+)
+PROPS["C13"] = dict(
+    rule=("writers bzip2, xflate, meta x 6 (thorough: 60) write/flush schedules incl. multi-KB writes x every byte position "
+          "0..len(output) at which the sink fails (outputs <= 1.5 KiB; else call boundaries +-2 and 200 sampled) x {error "
+          "with zero count, short count with error} x {once, permanent}; after the schedule: Write, Flush, Close, Close."),
+    explanation=("Oracles: the failing call or a later one returns non-nil; from the first non-nil return every call fails "
+                 "and Close is never nil; Close nil => the sink decodes (libbz2 / compress/flate / meta.Reader) to everything "
+                 "accepted; bytes received are a prefix of the fault-free output; InputOffset/OutputOffset after every call. "
+                 "A fifth of the histories (thorough: all) are replayed on the extracted latch model with the sink Write "
+                 "sizes of the fault-free run: per-call error classes, OutputOffset and sink length must agree."),
+    assumptions=["a sink that returns a short count without an error violates io.Writer and is outside the property"],
+    level_text=("Proved for the error-latch discipline shared by the three Writers, for every fault plan, every emission "
+                "profile and every call history: a sink failure is reported by the call in progress, stays reported by every "
+                "later call, Close returns nil only if the sink never failed, OutputOffset = bytes the sink accepted, "
+                "InputOffset = bytes reported accepted; the pre-repair bzip2 Close is refuted by a machine-checked witness. "
+                "What each call emits is a parameter of the model (taken from the real encoder at run time)."),
+    level_note="Trusted: as C09. The model abstracts the encoders to their sink-write sizes.",
+)
+PROPS["C14"] = dict(
+    rule=("Readers flate/brotli/bzip2/meta: pool of 6 streams (valid short/long, corrupt, truncated, empty, another valid) x "
+          "every history of length <= 2 (thorough: 3) over {nothing, Read 0/1/10/700, ReadAll, Close, ReadAll+Close, "
+          "Reset(pool i)} then Reset(target) and ReadAll, for every target in the pool; xflate.Reader: pool of 6 x 7 x 7 "
+          "two-step histories; Writers bzip2/xflate/meta: 7 x 7 two-step histories x {healthy, faulty first sink} x 3 payloads."),
+    explanation=("Oracle: bytes, final error class, InputOffset and OutputOffset (sink bytes for writers) of the reused object "
+                 "equal those of a freshly constructed one. Rediscovered D4 before its repair."),
+    assumptions=[],
+    level_text=("Proved: at the level of what determines a Reader's future output (pending bytes, error latch, remaining "
+                "source) the repaired Reset equals construction and is independent of history, and the pre-repair "
+                "bzip2.Reader.Reset is refuted for every state with pending bytes. Non-interference of the carried "
+                "allocations (window contents, decoder tables) is not yet a theorem (DESIGN.md C_noninterf); it is decided by "
+                "the exhaustive short-history oracle."),
+    level_note="Trusted: as C09.",
+)
+PROPS["C15"] = dict(
+    rule=("valid 1-4 chunk streams assembled from parts (real compress/flate chunks, indexes and footers built with "
+          "meta.Writer) x 24 tampering operators: record sizes shifted between records, totals, CRC, back size, footer "
+          "magic/final bits, chunk swaps with/without records, back-references across a chunk start, embedded final blocks "
+          "(empty stored, stored overrunning the chunk by 5, fixed Huffman), non-final overrun, record count, index final "
+          "mode, trailing payload, trailing/leading bytes, nested stream, zero-size chunk, missing sync marker, random "
+          "mutation; chained indexes with tampered back sizes; the D7 witness family."),
+    explanation=("For every string xflate.NewReader accepts and reads to EOF: compress/flate and zlib must accept the whole "
+                 "string with the same content. The extracted Reader model must agree with the implementation on acceptance "
+                 "and content of every case, and classifies accepted-but-different cases: only those where a DEFLATE block "
+                 "with the final bit starts inside a data chunk are the known finding."),
+    assumptions=_XF_TRUST,
+    level_text=("The property is FALSE on the current design and the development proves so: C15_refuted / "
+                "C15_statement_is_false exhibit a 53-byte string (built with the real meta.Writer) that the Reader model "
+                "accepts with 9 bytes of content while the RFC 1951 model stops inside the first chunk. Recorded as a known "
+                "finding (no small sound repair). The partial theorem for chunks without final blocks is not yet proved; "
+                "such cases are decided by the oracle with three decoders."),
+    level_note="Trusted: as C05.",
+    trusted_extra=_XF_TRUST,
+)
+PROPS["C17"] = dict(
+    rule=("streams: 180 chunks of 5 bytes with an index every 3 chunks and two empty chunks, 50 chunks with one index, 30 "
+          "chunks with one-record chained indexes (thorough: plus 625 chunks of 64 bytes); for each: the open, then 60 "
+          "(thorough: 600) requests Seek(p); ReadFull(n) with random, backward and repeated positions."),
+    explanation=("A counting ReadSeeker records every byte range the implementation reads. Opening: every range must lie in "
+                 "the footer tail or an index block (the model's log for the same open) and the total must not exceed their "
+                 "sizes. Each request: every range read must lie in the chunks the Reader model opens for the same request "
+                 "history (or the chunk that was current), and the bytes fetched must not exceed their compressed sizes."),
+    assumptions=_XF_TRUST,
+    level_text=("Proved for the Reader model: a Seek appends at most one range to the I/O log and it is the compressed span of "
+                "one index record; refused seeks and zero-length reads touch nothing. The implementation's actual reads are "
+                "checked for inclusion in the model's log on every run. Total-cost bounds over whole request sequences are "
+                "by inclusion checking, not yet a theorem."),
+    level_note="Trusted: as C05; bufio's 4 KiB read-ahead inside xflate's flateReader is bounded by the LimitedReader (observed, not modelled).",
+    trusted_extra=_XF_TRUST,
+)
+PROPS["C18"] = dict(
+    rule=("Writers bzip2/meta: every sequence up to length 4 (thorough: 5) over {Write 0/1/40 bytes, Close, Reset}; xflate: "
+          "up to length 3 (4) over the same plus Flush sync/full/index/invalid; Readers flate/brotli/bzip2/meta: every "
+          "sequence up to length 4 (5) over {Read 0/1/7/100000, Close, Reset}; xflate.Reader: plus Seek(3), Seek(0,End), "
+          "Seek(-1); 100 random sequences of 5-40 calls per type."),
+    explanation=("Oracles: no panic; a second Close after a successful one returns nil; after a successful Close no byte "
+                 "reaches the sink, Write/Flush fail, and the stream decodes to what was accepted; a Reader closed after EOF "
+                 "returns an error and no data from Read and Seek; Reset revives. xflate Writer/Reader histories without "
+                 "Reset are also replayed on the extracted models."),
+    assumptions=[],
+    level_text=("Proved for the models, for all states: a closed Writer is inert (xflate model over any compressor; the "
+                "generic latch model), Close is idempotent, a closed Reader refuses Read and Seek, the stream Readers' Close "
+                "returns nil exactly after EOF. 'No panic' of the Go code is the oracle's observation on exhaustive short "
+                "histories."),
+    level_note="Trusted: as C09.",
+)
+PROPS["C19"] = dict(
+    rule=("24 jobs per round (3 each of flate/brotli/bzip2/meta/xflate Readers: read, Reset to a corrupted stream, Reset "
+          "back; bzip2/xflate/meta Writers: write, flush, close, Reset, rewrite) started simultaneously on separate "
+          "goroutines, 6 rounds (thorough: 60), under the Go race detector; a SHA-256 of every package-level table "
+          "(fixed Huffman coders, selector coders, brotli LUTs and dictionary, meta coders, ReverseLUT) before/after."),
+    explanation=("Oracles: each job's digest of everything observable equals its result when run alone; the shared-table "
+                 "digest never changes; the race detector reports nothing (its log is parsed by the check)."),
+    assumptions=["the Go race detector finds races only on the interleavings that occur"],
+    level_text=("Partial by nature. Proved: for any two deterministic step machines over one read-only table value, every "
+                "interleaving of their calls gives each instance exactly the observations and final state of running alone; "
+                "all Reader/Writer models here are such machines. The absence of unsynchronised memory access in the Go "
+                "code cannot be expressed in a Gallina model; it is looked for by the race detector and by the table digest."),
+    level_note="Trusted: Go race detector, the digest hooks (verif-tagged).",
+)
+PROPS["C20"] = dict(
+    rule=("all count vectors over alphabets of 1..5 (thorough: 6) symbols with counts 0..4 x limits ceil(log2 n)..27 (quick: "
+          "a subset of limits); Fibonacci, powers-of-two, all-zero, all-equal, near-2^32 and random profiles up to 704 "
+          "symbols; for each code: every symbol plus random fields written and read back in both bit orders through 8 "
+          "source kinds; 300 (thorough: 10000) random scripts of symbols, fields of 1..57 bits, pads and raw byte runs incl. "
+          "the D5 call order."),
+    explanation=("Oracles on internal/prefix: GenerateLengths returns nil, lengths in 1..limit, Kraft sum exactly one, no "
+                 "longer code for a more frequent symbol (when counts sum below 2^32), single symbol => length 0, unsorted "
+                 "input refused; GeneratePrefixes result passes the package's own prefix/canonical checks; Writer->Reader "
+                 "round trip. GenerateLengths and GeneratePrefixes are compared with the extracted models (incl. the uint32 "
+                 "wrap-around of node weights and of the length histogram)."),
+    assumptions=[],
+    level_text=("Proved: bit fields written LSB-first are read back unchanged at any stream position (all widths, values); "
+                "GeneratePrefixes refuses degenerate input; a kernel-checked finite sweep (alphabets 2..4, counts 0..3, "
+                "limits up to 5 and 27) shows lengths within the limit, complete and monotone. The unbounded Kraft/limit/"
+                "monotonicity theorems and the table-decoder correctness are not yet proved; beyond the sweep they are "
+                "decided by the oracle and the byte-exact models."),
+    level_note="Trusted: as C09.",
+)
